@@ -1,0 +1,68 @@
+//go:build verif
+
+package pubsub
+
+import (
+	"context"
+
+	pb "github.com/libp2p/go-libp2p-pubsub/pb"
+	"github.com/libp2p/go-libp2p/core/peer"
+)
+
+// VerifSendRPC drives GossipSubRouter.sendRPC for the verification harness
+// (property C11: splitting an oversized RPC). It must be called inside the
+// event loop (VerifEval) of a gossipsub node.
+//
+// For the duration of the call the peer `to` exists as an outbound queue only
+// (no stream, no writer goroutine) and the maximum message size is maxSize;
+// both are restored before returning, and whatever sendRPC retained for `to`
+// (control to retry, pending gossip) is forgotten again, so that consecutive
+// calls are independent. pendingCtl / pendingGossip, when non-nil, are installed
+// as the control retry and the gossip waiting to be piggybacked onto the next
+// RPC to `to` (what an earlier dropped GRAFT/PRUNE or the last heartbeat's
+// emitGossip would have left there). It returns the RPCs that sendRPC queued
+// for the wire, in queue order, and the control message it kept for a retry
+// (nil if none).
+func (p *PubSub) VerifSendRPC(to peer.ID, out *RPC, urgent bool, maxSize int,
+	pendingCtl *pb.ControlMessage, pendingGossip []*pb.ControlIHave) (queued []*RPC, retry *pb.ControlMessage) {
+	gs, ok := p.rt.(*GossipSubRouter)
+	if !ok {
+		return nil, nil
+	}
+	q := newRpcQueue(1 << 20)
+	oldQ, hadQ := p.peers[to]
+	oldMax := p.maxMessageSize
+	p.peers[to], p.maxMessageSize = q, maxSize
+	defer func() {
+		p.maxMessageSize = oldMax
+		if hadQ {
+			p.peers[to] = oldQ
+		} else {
+			delete(p.peers, to)
+		}
+		delete(gs.control, to)
+		delete(gs.gossip, to)
+	}()
+
+	if pendingCtl != nil {
+		gs.control[to] = pendingCtl
+	}
+	if pendingGossip != nil {
+		gs.gossip[to] = pendingGossip
+	}
+
+	gs.sendRPC(to, out, urgent)
+
+	for {
+		n, pr, _ := q.VerifLen()
+		if n+pr == 0 {
+			break
+		}
+		r, err := q.Pop(context.Background())
+		if err != nil {
+			break
+		}
+		queued = append(queued, r)
+	}
+	return queued, gs.control[to]
+}
